@@ -29,7 +29,7 @@ theorem assembleStruct_ok (fields : List FieldDef) (slots : List (String × PyVa
     simp only [attrHas] at h1
     obtain ⟨x, hx⟩ := Option.isSome_iff_exists.mp h1
     simp only [assembleStruct, hx, lookupEnc_map_ok, ih', pick, List.filterMap_cons] at ih' ⊢
-    cases hl : lookupW f.name ws <;> simp [hl, bind, Except.bind, pure, Except.pure]
+    cases lookupW f.name ws <;> simp [bind, Except.bind, pure, Except.pure]
 
 /-! ### values without sub-values -/
 
@@ -186,7 +186,7 @@ theorem encode_wire (E : Ext) (env : Env) (hwf : envWF env = true) (hx : envWFX 
             · obtain ⟨fl', sc, hty⟩ := hst
               rw [hty] at hvd ih hv
               obtain ⟨c', slots', rfl⟩ : ∃ c' slots', payload = .struct c' slots' := by
-                cases payload <;> simp_all [validB, validPrim, isNoneV, PTy.flags]
+                cases payload <;> simp_all [validB, isNoneV, PTy.flags]
               have hw : wire E env (.struct fl' sc) (.struct c' slots') =
                   .obj (pick (publicFields env sc) (wireSlots E env (publicFields env sc) slots')) := by
                 simp [wire]
